@@ -55,7 +55,7 @@ ASSUMPTIONS = [
     "a residual that is missing from the input databox (whole series or single cells) is read as 0 (irispie's documented default residual value in slatable_for_simulate); what the output holds in such a cell is only judged through the equation",
     "exogenize() is called with the documented keywords only (transform=, when_data=); the undocumented 'flat' transform and the name_format=/shift= keywords are not generated",
     "an exogenized point without when_data always has a data value; when_data points have a value or a missing cell (or no series at all)",
-    "simulate() options other than plan=, execution_order= and target_db= stay at their defaults (prepend_input, remove_initial, remove_terminal, shocks_from_data=True, parameters_from_data=False)",
+    "simulate() options other than plan=, execution_order= and target_db= stay at their defaults (prepend_input, remove_initial, remove_terminal, shocks_from_data=True, parameters_from_data=False); the input databox may carry items named like parameters with other values, which the default parameters_from_data=False ignores",
     "cells after the end of the simulation span are not judged in the output (remove_terminal)",
     "an equation/period step that reads a left-hand cell which the chosen order computes only later is not required to hold on the output values alone; it must hold with that cell read from the input databox, which is what the documented order ('all equations for the first period, ...' / 'all periods for the first equation, ...') makes the step see (buckets own_information:*)",
     "a step whose inputs (as seen by the step) are non-finite or outside the domain of its right-hand side is not judged; the step that produced those inputs is",
@@ -468,6 +468,8 @@ def _build_databox(ir, case, first):
         if np.isnan(arr).all():
             continue        # an all-missing series is "no series"
         db[name] = ir.Series(start=first, values=arr)
+    for name, value in sorted((case.get("param_items") or {}).items()):
+        db[name] = float(value)
     return db
 
 
@@ -1003,6 +1005,13 @@ def _case(draw, shuffled=False):
             for k in range(T):
                 if (nm, k) not in points or points[(nm, k)][0] != tr:
                     col_[k + P] = draw(st.integers(lo, hi)) / 100.0
+    # items of the input databox named like model parameters, with other values (calibration scalars kept in the box,
+    # or the output of an earlier parameters_from_data run): ignored under the default parameters_from_data=False
+    case["param_items"] = {}
+    for nm, kd in params:
+        if draw(st.integers(0, 2)) == 0:
+            lo, hi = _value_range(kd)
+            case["param_items"][nm] = draw(st.integers(lo, hi)) / 100.0 + 0.005
     return case
 
 
